@@ -881,6 +881,12 @@ func toASTPosition(pos Position) ast.Position {
 	}
 }
 
+// ParseNumber reads a number as it may be written in a journal (digit groups,
+// decimal comma, exponent) the way the parser reads the quantity of an amount.
+func ParseNumber(s string) (decimal.Decimal, error) {
+	return decimal.NewFromString(normalizeAmountNumber(s))
+}
+
 // normalizeAmountNumber turns a number as written in a journal (digit groups,
 // decimal comma, exponent) into the form decimal.NewFromString reads. Only
 // the mantissa takes part in the decimal-mark heuristics of normalizeNumber;
